@@ -146,8 +146,8 @@ def iscloseNd (eps : Int) (s1 : Shape) (d1 : List Int) (s2 : Shape) (d2 : List I
 def defaultEps : Int := 1
 
 /-- detail::isclose over the operand grammar (utility/isclose.hpp:147-309) and the tuple loop of the public dispatcher.
-    MIRRORS A DEFECT: the four `either vs plain` calls are written `isclose(*ptr,u)` — the caller's `eps` is dropped and the
-    default tolerance is used (finding `isclose.either-plain-eps`). -/
+    The `either vs plain` branches forward the caller's `eps` (repaired by the fix commit "isclose passes the caller's
+    tolerance on ..."; before it they called `isclose(*ptr,u)` and compared with the default tolerance). -/
 def isclose (eps : Int) : Val → Val → Res
   | .lit, _ => .notAccepted            -- isclose has no Nothing-literal branch (fail type / does not compile)
   | _, .lit => .notAccepted
@@ -163,10 +163,10 @@ def isclose (eps : Int) : Val → Val → Res
   | .right a, .right b => isclose eps a b
   | .left _, .right _ => .val false
   | .right _, .left _ => .val false
-  | .left a, b => if sameConcept a b then isclose defaultEps a b else .val false      -- eps dropped
-  | .right a, b => if sameConcept a b then isclose defaultEps a b else .val false     -- eps dropped
-  | a, .left b => if sameConcept a b then isclose defaultEps a b else .val false      -- eps dropped
-  | a, .right b => if sameConcept a b then isclose defaultEps a b else .val false     -- eps dropped
+  | .left a, b => if sameConcept a b then isclose eps a b else .val false
+  | .right a, b => if sameConcept a b then isclose eps a b else .val false
+  | a, .left b => if sameConcept a b then isclose eps a b else .val false
+  | a, .right b => if sameConcept a b then isclose eps a b else .val false
   | .num a, .num b => .val (decide ((a - b).natAbs < eps))
   | .nd s1 d1, .nd s2 d2 => iscloseNd eps s1 d1 s2 d2
   | .unit, .unit => .val true
@@ -202,25 +202,5 @@ def iscloseRef (eps : Int) : Val → Val → Res
   | .unit, .unit => .val true
   | .pair a as, .pair b bs => (iscloseRef eps a b).and (iscloseRef eps as bs)
   | _, _ => .notAccepted
-
-/-- does the comparison of `a` with `b` pass through an `either vs plain` branch? (decidable input class of the finding) -/
-def mixedEither : Val → Val → Bool
-  | .lit, _ => false
-  | _, .lit => false
-  | .nothing, _ => false
-  | _, .nothing => false
-  | .just a, .just b => mixedEither a b
-  | .just a, b => mixedEither a b
-  | a, .just b => mixedEither a b
-  | .left a, .left b => mixedEither a b
-  | .right a, .right b => mixedEither a b
-  | .left _, .right _ => false
-  | .right _, .left _ => false
-  | .left _, _ => true
-  | .right _, _ => true
-  | _, .left _ => true
-  | _, .right _ => true
-  | .pair a as, .pair b bs => mixedEither a b || mixedEither as bs
-  | _, _ => false
 
 end NmVerif.IsEqual
